@@ -616,6 +616,16 @@ pub async fn send_body(ctx: Ctx, name: String, side: u8, mut ss: h2::SendStream<
         })
         .await;
         ctx.tick();
+        if !(coop && cancel.fired()) {
+            let rec = match &r {
+                Ok(code) => Ok(u32::from(*code)),
+                Err(e) => Err(crate::hist::ErrFacts::of(e)),
+            };
+            ctx.hist.with(|h| {
+                let st = h.step;
+                h.reset_polls.push((side, sid, rec, st));
+            });
+        }
         match r {
             Ok(code) => ctx.hist.log(side, sid, || format!("poll_reset -> {:?}", code)),
             Err(e) => ctx.hist.log(side, sid, || format!("poll_reset -> Err({})", e)),
